@@ -122,6 +122,7 @@ func NewPrintCommand$1$1 returns (err)
 func NewPrintCommand returns (cmd)
   props C16 C06 C08
   ensures @name [C16] cmd != nil && cmd.Name == "print"
+  ensures @short-forms [C16] StrAlias(cmd.Flags[0], "b") && StrAlias(cmd.Flags[1], "e")
   ensures @flags [C16 C06] len(cmd.Flags) == 2 && CmdStrFlag(cmd.Flags[0], "begin") && CmdStrFlag(cmd.Flags[1], "end")
 
 @*/
